@@ -19,9 +19,9 @@ import (
 
 // Case: where the expression is written, what kind of statement carries it, which expression.
 type Case struct {
-	Placement string `json:"placement"` // direct grouping-local grouping-remote augment-from-user augment-into-user typedef-remote submodule grouping-unused
-	Carrier   string `json:"carrier"`   // must when path
-	Expr      int    `json:"expr"`      // index into the expression table of the carrier
+	Placement string `json:"placement"`  // direct grouping-local grouping-remote augment-from-user augment-into-user typedef-remote submodule grouping-unused
+	Carrier   string `json:"carrier"`    // must when path
+	Expr      int    `json:"expr"`       // index into the expression table of the carrier
 	UserBinds string `json:"user_binds"` // how the using module M2 binds prefix x: other | none | same
 }
 
@@ -62,7 +62,8 @@ var pathExprs = []exprSpec{
 	{"/x:top/zz:leaf", true, []string{"x", "zz"}},
 }
 
-var placements = []string{"direct", "grouping-local", "grouping-remote", "augment-from-user", "augment-into-user", "typedef-remote", "submodule", "grouping-unused", "grouping-nested-remote"}
+var placements = []string{"direct", "grouping-local", "grouping-remote", "augment-from-user", "augment-into-user", "typedef-remote", "submodule", "grouping-unused", "grouping-nested-remote",
+	"uses-when-remote", "refine-must-remote", "deviate-add-must", "augment-when-remote"}
 
 func table(carrier string) []exprSpec {
 	if carrier == "path" {
@@ -75,12 +76,15 @@ func genCase(t *rapid.T) Case {
 	c := Case{Placement: placements[rapid.IntRange(0, len(placements)-1).Draw(t, "placement")],
 		Carrier:   []string{"must", "when", "path"}[rapid.IntRange(0, 2).Draw(t, "carrier")],
 		UserBinds: []string{"other", "none", "same"}[rapid.IntRange(0, 2).Draw(t, "binds")]}
-	if c.Placement == "typedef-remote" {
-		c.Carrier = "path"
+	if only := onlyCarrier[c.Placement]; only != "" {
+		c.Carrier = only
 	}
 	c.Expr = rapid.IntRange(0, len(table(c.Carrier))-1).Draw(t, "expr")
 	return c
 }
+
+// placements that exist for one carrier only
+var onlyCarrier = map[string]string{"typedef-remote": "path", "uses-when-remote": "when", "augment-when-remote": "when", "refine-must-remote": "must", "deviate-add-must": "must"}
 
 const (
 	nsA = "urn:verif:ma"
@@ -88,7 +92,9 @@ const (
 	nsC = "urn:verif:mc"
 )
 
-func leaf(name string) *sg.Node { return &sg.Node{Kind: "leaf", Name: name, Type: &sg.TypeSpec{Name: "string"}} }
+func leaf(name string) *sg.Node {
+	return &sg.Node{Kind: "leaf", Name: name, Type: &sg.TypeSpec{Name: "string"}}
+}
 
 // carrierNode builds the data node that carries the expression.
 func carrierNode(c Case, e string) *sg.Node {
@@ -162,6 +168,25 @@ func build(c Case) (mods []*sg.Mod, definer string, binds map[string]string) {
 	case "typedef-remote":
 		m1.Typedefs = []*sg.Typedef{{Name: "t", Type: &sg.TypeSpec{Name: "leafref", Path: e}}}
 		m2.Nodes[0].Kids = append(m2.Nodes[0].Kids, &sg.Node{Kind: "leaf", Name: "carrier", Type: &sg.TypeSpec{Name: "m1:t"}})
+	case "uses-when-remote":
+		// the when is written on the uses in M2; the node it lands on comes from M1's grouping
+		m1.Groupings = []*sg.Grouping{{Name: "g", Kids: []*sg.Node{leaf("carrier")}}}
+		m2.Nodes[0].Kids = append(m2.Nodes[0].Kids, &sg.Node{Kind: "uses", Name: "m1:g", When: e})
+		definer, binds = "m2", bindsM2
+	case "augment-when-remote":
+		// the when is written on an augment in M2 whose target is in M1's tree
+		m2.Augments = []*sg.Augment{{Target: "/m1:m1-top", When: e, Kids: []*sg.Node{leaf("carrier")}}}
+		definer, binds = "m2", bindsM2
+	case "refine-must-remote":
+		// the must is written in a refine in M2; the refined node comes from M1's grouping
+		m1.Groupings = []*sg.Grouping{{Name: "g", Kids: []*sg.Node{leaf("carrier")}}}
+		m2.Nodes[0].Kids = append(m2.Nodes[0].Kids, &sg.Node{Kind: "uses", Name: "m1:g", Refines: []sg.Refine{{Target: "carrier", Stmts: []string{"must " + sg.Quote(e) + ";"}}}})
+		definer, binds = "m2", bindsM2
+	case "deviate-add-must":
+		// the must is written in a deviation in M2; the deviated node is in M1's tree
+		m1.Nodes[0].Kids = append(m1.Nodes[0].Kids, leaf("carrier"))
+		m2.Deviations = []*sg.Deviation{{Target: "/m1:m1-top/m1:carrier", Deviates: []sg.Deviate{{Kind: "add", Stmts: []string{"must " + sg.Quote(e) + ";"}}}}}
+		definer, binds = "m2", bindsM2
 	case "submodule":
 		// written in a submodule of M1 that has its own import binding and the belongs-to prefix m1
 		sub := &sg.Mod{Name: "m1-sub", Prefix: "m1", BelongsTo: "m1", Imports: []sg.Import{{Mod: "ma", Prefix: "x"}, {Mod: "mc", Prefix: "y"}},
@@ -246,15 +271,30 @@ func checkCase(c Case) fw.Outcome {
 		parentLine := exprLine
 		for i := exprLine - 1; i >= 1; i-- {
 			t := strings.TrimSpace(lines[i-1])
-			if strings.HasPrefix(t, "leaf ") || strings.HasPrefix(t, "typedef ") {
+			if strings.HasPrefix(t, "leaf ") || strings.HasPrefix(t, "typedef ") || strings.HasPrefix(t, "uses ") || strings.HasPrefix(t, "augment ") || strings.HasPrefix(t, "deviation ") {
 				parentLine = i
 				break
+			}
+		}
+		// a statement attached from elsewhere (when on uses/augment, must in refine or deviate add) is carried, in the
+		// compiled schema, by the node it lands on: naming that node is accepted as well
+		landing := map[string]int{}
+		if onlyCarrier[c.Placement] != "" && c.Placement != "typedef-remote" {
+			for _, m := range mods {
+				for i, l := range strings.Split(m.Text(), "\n") {
+					if strings.HasPrefix(strings.TrimSpace(l), "leaf carrier") {
+						landing[m.Name] = i + 1
+					}
+				}
 			}
 		}
 		okLoc := false
 		for _, m := range locRe.FindAllStringSubmatch(txt, -1) {
 			l, _ := strconv.Atoi(m[2])
 			if m[1] == definer && l >= parentLine && l <= exprLine {
+				okLoc = true
+			}
+			if ll, ok := landing[m[1]]; ok && ll == l {
 				okLoc = true
 			}
 		}
@@ -344,7 +384,7 @@ func TestAllCombinations(t *testing.T) {
 	n := int64(0)
 	for _, p := range placements {
 		for _, car := range []string{"must", "when", "path"} {
-			if p == "typedef-remote" && car != "path" {
+			if only := onlyCarrier[p]; only != "" && car != only {
 				continue
 			}
 			for e := range table(car) {
